@@ -48,6 +48,51 @@ def oracle_cut(text, k, full_atoms):
     return None, obs
 
 
+def box_line_start_crlf(text):
+    body = text[:-2] if text.endswith("\r\n") else text
+    return body.rfind("\r\n") + 2
+
+
+def check_crlf(ctx, text_lf, replay_obj, where):
+    """S only (universal-newline translation is outside the Coq model): the CRLF copy of a complete file is a
+    complete file too - it must read as the same records, every byte prefix ending at or before its box line
+    must be rejected, an accepted prefix must return the complete file's records"""
+    ref = full_read(text_lf)
+    crlf = gc.to_crlf(text_lf)
+    fa = full_read(crlf)                    # the complete CRLF file is opened first, at the path of the prefixes
+    if ref is None or fa is None:
+        return                              # (that a complete CRLF copy reads as the same records is C13's clause, checked there)
+    ref = fa
+    start = box_line_start_crlf(crlf)
+    for k in range(len(crlf) + 1):
+        obs = gc.read_text(crlf[:k])
+        if obs[0] != "ok":
+            continue
+        if k <= start:
+            report(ctx, "CRLF copy: a truncation ending before the box line (byte %d <= %d) was accepted with %d atoms"
+                   % (k, start, len(obs[3])), dict(replay_obj, cut=k), "crlf")
+        elif obs[3] != ref:
+            report(ctx, "CRLF copy: an accepted truncation (byte %d) returned other atom records than the complete file" % k,
+                   dict(replay_obj, cut=k), "crlf")
+    ctx.cov["S"][where] = ctx.cov["S"].get(where, 0) + len(crlf) + 1
+
+
+def check_abandoned(ctx, conf, recs, where, ks=None):
+    """S: the writer is abandoned after k records (the producer raises, close() is never called, no reference
+    is kept, gc.collect()), then the file on disk is opened: it must be rejected for every k, count declared
+    or not, box set before the first record or left for later"""
+    path = os.path.join(gc.tmpdir(), "s14a.gro")
+    n = len(recs)
+    for k in (range(n + 1) if ks is None else ks):
+        for box_late in (False, True):
+            obs = gc.run_abandoned(path, conf, recs, k, box_late)
+            ctx.cov["S"][where] = ctx.cov["S"].get(where, 0) + 1
+            if obs[0] == "ok":
+                report(ctx, "an abandoned writer (stopped after %d of %d records, never closed, garbage collected) left a file "
+                       "that was accepted with %d atoms" % (k, n, len(obs[3])),
+                       {"kind": "abandoned", "case": gc.case_json(conf, recs), "k": k, "box_late": box_late}, "abandoned")
+
+
 def full_read(text):
     obs = gc.read_text(text)
     return obs[3] if obs[0] == "ok" else None
@@ -113,12 +158,12 @@ def shipped(ctx):
     return out
 
 
-def gen_runs(ctx, rs, n):
+def gen_runs(ctx, rs, n, nonascii=False):
     runs = []
     for i in range(n):
         vel, declared = bool(i & 1), bool(i & 2)
         size = int(rs.choice([1, 1, 2, 2, 3, 4, 6, 12]))
-        conf, recs = gc.gen_case(rs, natoms=size, vel=vel, declared=declared)
+        conf, recs = gc.gen_case(rs, natoms=size, vel=vel, declared=declared, nonascii=nonascii)
         if conf["title"] is not None and "\n" in conf["title"][:-1]:
             continue
         runs.append((conf, recs))
@@ -171,11 +216,41 @@ def check_run(ctx, conf, recs, where):
     return ops, fa, full, obs_all
 
 
+def demo_records(n, vel):
+    out = []
+    for i in range(n):
+        r = (1 + i // 3, "MOL", "C%d" % i, i + 1, 0.1 * i, 0.2 * i, -0.3 * i)
+        out.append(r + ((0.01 * i, -0.02 * i, 0.03 * i) if vel else ()))
+    return out
+
+
+# abandoned-writer witnesses (seeded C14-6): 6 atoms, with/without velocities, count declared or not
+CORPUS_ABANDONED = [({"title": "exported system", "natoms": (6 if declared else None), "fmt": None,
+                      "box": ("vec", [3.0, 4.0, 5.0])}, demo_records(6, vel))
+                    for vel in (False, True) for declared in (False, True)]
+# CRLF witnesses (seeded C14-5): 7 atoms with velocities, 1 and 5 atoms without (like BF4_CG / BF4_AA)
+CORPUS_CRLF = [({"title": "generated with velocities", "natoms": None, "fmt": None, "box": ("vec", [3.0, 4.0, 5.0])},
+                demo_records(7, True)),
+               ({"title": "one atom", "natoms": 1, "fmt": None, "box": ("vec", [1.0, 1.0, 1.0])}, demo_records(1, False)),
+               ({"title": "five atoms", "natoms": None, "fmt": (9, 4), "box": ("default",)}, demo_records(5, False))]
+
+
+def complete_text(conf, recs):
+    w = gc.run_writer(os.path.join(gc.tmpdir(), "s14c.gro"), conf, recs)
+    return w[1] if w[0] == "file" else None
+
+
 def corpus(ctx):
     ctx.cov["S"]["corpus_runs"] = 0
     for conf, recs in CORPUS_RUNS:
         check_run(ctx, conf, recs, "corpus_partial_files")
         ctx.cov["S"]["corpus_runs"] += 1
+    for conf, recs in CORPUS_CRLF + CORPUS_RUNS[:2]:
+        text = complete_text(conf, recs)
+        if text is not None:
+            check_crlf(ctx, text, {"kind": "crlf", "case": gc.case_json(conf, recs)}, "corpus_crlf_partial_files")
+    for conf, recs in CORPUS_ABANDONED:
+        check_abandoned(ctx, conf, recs, "corpus_abandoned_writers")
 
 
 def correspondence(ctx):
@@ -227,6 +302,8 @@ def correspondence(ctx):
             if b:
                 report(ctx, "truncation of shipped %s: %s" % (name, b), {"kind": "shipped", "file": name, "cut": k}, "cut")
         ctx.cov["S"]["shipped_partial_files"] = ctx.cov["S"].get("shipped_partial_files", 0) + len(cuts)
+        if len(text) <= ctx.n(3000, 12000) and "\r" not in text:
+            check_crlf(ctx, text, {"kind": "shipped_crlf", "file": name}, "shipped_crlf_partial_files")
         hist["shipped:" + name] = len(cuts)
         if len(text) <= 12000:
             try:
@@ -283,11 +360,17 @@ def oracle(ctx, scale):
     rs = ctx.np_rng("S%d" % scale)
     S = ctx.cov["S"]
     n = ctx.n(60, 1200) * scale
-    runs = gen_runs(ctx, rs, n)
+    runs = gen_runs(ctx, rs, n, nonascii=True)     # S only: one title in four has multi-byte characters
     before = S.get("violating_inputs", 0)
-    for conf, recs in runs:
-        check_run(ctx, conf, recs, "oracle_partial_files")
+    for i, (conf, recs) in enumerate(runs):
+        ops, fa, full, _ = check_run(ctx, conf, recs, "oracle_partial_files")
         ctx.count(("srun", repr(conf), repr(recs)))
+        if any(ord(ch) > 127 for ch in (conf["title"] or "")):
+            S["nonascii_title_runs"] = S.get("nonascii_title_runs", 0) + 1
+        if i % 2 == 0:
+            check_crlf(ctx, full, {"kind": "crlf", "case": gc.case_json(conf, recs)}, "oracle_crlf_partial_files")
+        check_abandoned(ctx, conf, recs, "oracle_abandoned_writers",
+                        ks=sorted(set([0, 1, len(recs) // 2, len(recs) - 1, len(recs)])))
     S["oracle_runs_x%d" % scale] = len(runs)
     S["failures"] = S.get("failures", 0) + S.get("violating_inputs", 0) - before
 
@@ -300,6 +383,21 @@ def replay(ctx, obj):
         found = []
         ctx.violation = lambda what, replay_obj, **kw: found.append(what)   # replaying writes no new replay files
         check_run(ctx, conf, recs, "replay")
+        for v in found:
+            print(v)
+        return not found
+    if kind in ("crlf", "shipped_crlf", "abandoned"):
+        found = []
+        ctx.violation = lambda what, replay_obj, **kw: found.append(what)
+        if kind == "abandoned":
+            conf, recs = gc.case_from_json(r["case"])
+            check_abandoned(ctx, conf, recs, "replay", ks=[r["k"]])
+        elif kind == "crlf":
+            text = complete_text(*gc.case_from_json(r["case"]))
+            check_crlf(ctx, text, {"kind": "crlf"}, "replay")
+        else:
+            with open(os.path.join(DATA, r["file"]), "rb") as f:
+                check_crlf(ctx, f.read().decode("latin-1"), {"kind": "shipped_crlf"}, "replay")
         for v in found:
             print(v)
         return not found
@@ -321,7 +419,9 @@ def finish(ctx):
         "a byte prefix that contains the whole box text but not its end of line is accepted, with exactly the complete "
         "file's records (allowed by the property's second sentence); no crash point of the operation list produces it, "
         "the box line and its newline being one write",
-        "ASCII text without carriage returns; text-mode tell/seek are byte offsets; decimal values as in C13",
+        "the Coq model and K are ASCII text without carriage returns (text-mode tell/seek are byte offsets; decimal values as "
+        "in C13); CRLF copies of complete files, titles with multi-byte characters and writers abandoned to the garbage "
+        "collector are exercised by the S oracle only (testing, outside the model)",
     ]
     return ctx.finish(level="proof", rule=RULE,
                       trusted=["CPython int()/float()/readline/seek/tell semantics transcribed by hand in coq/Base/StrGro.v and "
